@@ -1017,31 +1017,23 @@ func c09R7(c *Ctx, a *c09A) {
 		c.unresolved(R, fnKey(fn)+"|revocation sites", "none found")
 	}
 
-	// corrupt tombstones
-	corrupt := OnTrue("errors.Is(err, errCorruptTombstones)", func(e *Expr) bool {
-		e = strip(e)
-		return e != nil && e.K == ECall && sameFunc(e.Fn, a.errorsIs) && len(e.Args) == 2 && GlobalIs(a.errCorrupt)(e.Args[1]) && ResultOf(1, a.readTomb)(e.Args[0])
-	})
+	// unreadable tombstone store (corrupt payload or any other read error of an existing file)
+	corrupt := OnTrue("readTombstones err", ResultOf(1, a.readTomb))
 	nilStore := Barrier{Name: "rootKeys=nil", Instr: func(in ssa.Instruction) bool {
 		return a.rootKeysStore(in, false) && !a.rootKeysStore(in, true)
 	}}
-	c.AfterEdge(R, fn, "corrupt tombstones: return without rootKeys=nil", corrupt, isReturn, nilStore)
-	c.AfterEdge(R, fn, "corrupt tombstones: fetch/publish/write", corrupt, func(in ssa.Instruction) bool {
+	c.AfterEdge(R, fn, "unreadable tombstones: return without rootKeys=nil", corrupt, isReturn, nilStore)
+	c.AfterEdge(R, fn, "unreadable tombstones: fetch/publish/write", corrupt, func(in ssa.Instruction) bool {
 		return isCallTo(a.resolve, a.writeTomb, a.writeTA)(in) || a.rootKeysStore(in, true)
 	})
-	// decode failure is reported as corruption
+	// a decode failure is an error result of readTombstones (whatever its wrapping): the edge above covers it
 	dec := c.fobj(R, "encoding/gob.(*Decoder).Decode")
 	if dec != nil {
-		carries := func(v ssa.Value) bool { return Contains(GlobalIs(a.errCorrupt))(Desc(v)) }
-		c.AfterEdge(R, a.readTombFn, "decode failure not reported as errCorruptTombstones", OnTrue("Decode err", CallTo(dec)),
+		c.AfterEdge(R, a.readTombFn, "decode failure swallowed", OnTrue("Decode err", CallTo(dec)),
 			func(in ssa.Instruction) bool {
 				r, ok := in.(*ssa.Return)
-				return ok && !(len(r.Results) == 2 && carries(r.Results[1]))
-			},
-			Barrier{Name: "result = …errCorruptTombstones…", Instr: func(in ssa.Instruction) bool {
-				st, ok := in.(*ssa.Store)
-				return ok && carries(st.Val)
-			}})
+				return ok && len(r.Results) == 2 && IsNilConst(Desc(r.Results[1]))
+			})
 	}
 	// pre-fetch publish only when the prior trust set was valid
 	var pre []ssa.Instruction
